@@ -475,6 +475,55 @@ func ruleA12Copy(r *Run, p *Prog) {
 		for i := 0; i < st.NumFields(); i++ {
 			r.Ob("A12", FnName(f)+"/copy:"+st.Field(i).Name(), p.Pos(f.Pos()), true, true, "result starts as a copy of the receiver")
 		}
+		// … but then the duplicate shares the receiver's context array unless it is replaced by a
+		// private copy wherever the receiver has one: Output "duplicates the current logger", and
+		// UpdateContext on the two loggers would otherwise write into the same spare capacity
+		var ctxField *types.Var
+		for i := 0; i < st.NumFields(); i++ {
+			if isByteSlice(st.Field(i).Type()) {
+				ctxField = st.Field(i)
+			}
+		}
+		if ctxField != nil {
+			freshStore := func(in ssa.Instruction) bool {
+				sx, ok := in.(*ssa.Store)
+				if !ok {
+					return false
+				}
+				fa, ok := sx.Addr.(*ssa.FieldAddr)
+				if !ok || fieldVar(fa) != ctxField || !resultAllocs[fa.X] {
+					return false
+				}
+				o := originOfSlice(f, sx.Val, 0, map[ssa.Value]bool{})
+				return len(o.kinds) == 1 && o.kinds["fresh"]
+			}
+			// edges on which the receiver's context is nil / empty need no copy
+			nilEdge := func(b *ssa.BasicBlock, si int) bool {
+				iff, ok := b.Instrs[len(b.Instrs)-1].(*ssa.If)
+				if !ok {
+					return true
+				}
+				c, ok := cmpOf(CondEdge{iff, si == 0})
+				if !ok {
+					return true
+				}
+				isCtx := func(v ssa.Value) bool {
+					fv, _ := loadedField(v)
+					return fv == ctxField
+				}
+				if isCtx(c.X) && isNilConst(c.Y) && c.Op == token.EQL {
+					return false
+				}
+				if lc, isC := c.X.(*ssa.Call); isC && builtinName(&lc.Call) == "len" && isCtx(lc.Call.Args[0]) {
+					if n, isN := constInt(c.Y); isN && ((c.Op == token.EQL && n == 0) || (c.Op == token.LEQ && n == 0) || (c.Op == token.LSS && n <= 1)) {
+						return false
+					}
+				}
+				return true
+			}
+			shared, path := pathExists(f, nil, isReturn, freshStore, nilEdge)
+			r.Ob("A12", FnName(f)+"/context-not-shared", p.Pos(f.Pos()), !shared, true, tern(!shared, "the duplicate gets a private copy of the context bytes wherever the receiver has a context", "Output returns a logger that still shares the receiver's context array: UpdateContext on the two loggers writes into the same spare capacity and corrupts both loggers' events"+pathHint(p, path)))
+		}
 		return
 	}
 	// fields set by the constructor the result starts from
